@@ -69,7 +69,7 @@ try:
         e["VERIF_DEV_FACTS"] = tmp
         for i in (ids or [prop]):
             c = subprocess.run(["/verif/check", i, "--tier", "quick"], env=e, stdout=subprocess.PIPE, stderr=subprocess.STDOUT, text=True)
-            checks[i] = (c.returncode, [l[:300] for l in c.stdout.splitlines() if "key=" in l or "INFRA" in l or "VIOLATION" in l][:5])
+            checks[i] = (c.returncode, [l[:300] for l in c.stdout.splitlines() if ("key=" in l and not l.startswith("KNOWN-FINDING")) or "INFRA" in l or "VIOLATION" in l][:6])
         res["checks"] = checks
     print(json.dumps(res, indent=1))
 finally:
